@@ -163,8 +163,8 @@ func vC14Status2(a *asset, repID string, cycle1, cycle2 int) {
 	startNr := vInt("startNr", 0, 1<<20)
 	startS := vInt("startS", 0, 1<<32-1)
 	n := vInt("n", 0, 1<<26)
-	rsq1 := vInt("rsq1", 0, 4)
-	rsq2 := vInt("rsq2", 0, 4)
+	rsq1 := vConc(vInt("rsq1", 0, 2))
+	rsq2 := vConc(vInt("rsq2", 0, 2))
 	extra := vInt("extra", 0, 60000)
 	cfg := vCfg(startS, startNr, 60)
 	cfg.SegStatusCodes = []SegStatusCodes{{Cycle: cycle1, Rsq: rsq1, Code: 404}, {Cycle: cycle2, Rsq: rsq2, Code: 410}}
